@@ -404,3 +404,685 @@ def long_jobs(wd, rng, nrandom):
         jobs.append((wd, 'l%d' % n, 'raw', ('48K', '128K')[n % 2], specs[k:k + 8] if n % 2 else specs[k:k + 3]))
         n += 1
     return jobs
+
+
+# ------------------------------------------------------------------------------------------------
+# whole files (pattern B, SnapCases.tla)
+# ------------------------------------------------------------------------------------------------
+B8 = (0, 1, 2, 0x7F, 0x80, 0x81, 0xED, 0xFE, 0xFF)
+W16 = (0, 1, 0xFF, 0x100, 0x3FFF, 0x4000, 0x5C3A, 0x7FFF, 0x8000, 0xC000, 0xEDED, 0xFFFE, 0xFFFF)
+REG8 = ('a', 'f', 'a2', 'f2', 'i', 'r')
+REG16 = ('bc', 'de', 'hl', 'bc2', 'de2', 'hl2', 'ix', 'iy', 'sp', 'pc')
+FRAMES = {'48K': 69888, '128K': 70908, '+2': 70908}
+T24 = 1 << 24
+
+
+def pick8(rng):
+    return rng.choice(B8) if rng.random() < 0.5 else rng.randrange(256)
+
+
+def pick16(rng):
+    return rng.choice(W16) if rng.random() < 0.5 else rng.randrange(65536)
+
+
+def t_values(machine):
+    fr = FRAMES[machine]
+    q = fr // 4
+    return [0, 1, q - 1, q, q + 1, 2 * q - 1, 2 * q, 3 * q - 1, 3 * q, 3 * q + 1, fr - 2, fr - 1, fr, fr + 1, 2 * fr - 1, 2 * fr,
+            10 * fr + 5, 65535, 65536, 65537, T24 - 1]
+
+
+def t_big_values(machine):
+    fr = FRAMES[machine]
+    return [T24, T24 + 5000, 2 * T24 + fr - 1, 100 * T24 + 12345, (1 << 31) - 1]
+
+
+def gen_state(rng, machine, tclass='frame'):
+    st = {k: pick8(rng) for k in REG8}
+    st.update({k: pick16(rng) for k in REG16})
+    st['r'] = rng.choice((0, 1, 0x7F, 0x80, 0x81, 0xFF, rng.randrange(128, 256), rng.randrange(256)))
+    st['iff'] = rng.randrange(2)
+    st['im'] = rng.randrange(3)
+    st['border'] = rng.randrange(8)
+    st['issue2'] = rng.randrange(2)
+    fr = FRAMES[machine]
+    if tclass == 'big':
+        st['t'] = rng.choice(t_big_values(machine) + [rng.randrange(T24, 1 << 31)])
+    else:
+        st['t'] = rng.choice(t_values(machine) + [rng.randrange(fr)] * 12 + [rng.randrange(fr, T24)] * 4)
+    if machine == '48K':
+        st.update(o7ffd=0, offfd=0, ay=[0] * 16)
+    else:
+        st.update(o7ffd=rng.choice((0, 1, 7, 8, 0x10, 0x17, 0x1F, 0x20, 0x3F, 0xFF, rng.randrange(256))),
+                  offfd=pick8(rng), ay=[pick8(rng) for _ in range(16)])
+    st['fe'] = pick8(rng)
+    st['memptr'] = pick16(rng)
+    return st
+
+
+def gen_bank(rng, kind=None):
+    kind = kind or rng.choice(('rnd', 'runs', 'ed', 'ed', 'text', 'zero'))
+    if kind == 'rnd':
+        return rng.randbytes(BANK)
+    if kind == 'zero':
+        return bytes([rng.choice((0, 0xED, 0xFF))]) * BANK
+    if kind == 'ed':
+        al = bytes((0xED, 0xED, 0, 1, rng.randrange(256)))
+        return bytes(rng.choices(al, k=BANK))
+    if kind == 'text':
+        # little variation: many short and long runs of a few values
+        out = bytearray()
+        while len(out) < BANK:
+            out += bytes([rng.choice((0, 0x20, 0xED, 0xFF, rng.randrange(256)))]) * rng.choice((1, 1, 2, 3, 4, 5, 6, 17, 255, 256, 700))
+        return bytes(out[:BANK])
+    runs = []
+    while sum(n for _, n in runs) < BANK:
+        runs.append([rng.choice((0xED, 0, 1, 0xFF, rng.randrange(256))), rng.choice((1, 2, 3, 4, 5, 6, 40, 254, 255, 256, 257, 511, 1000))])
+    return runs_bytes(runs)[:BANK]
+
+
+def gen_banks(rng, machine):
+    order = (5, 2, 0) if machine == '48K' else range(8)
+    return {b: gen_bank(rng) for b in order}
+
+
+def num(rng, v, allow0x=True):
+    k = rng.randrange(4)
+    if k == 0:
+        return '$%X' % v
+    if k == 1 and allow0x:
+        return '0x%x' % v
+    return str(v)
+
+
+def optnum(rng, v):
+    """number syntax of argparse options typed `integer` (--org, --stack, --start): decimal or 0x hex"""
+    return '0x%X' % v if rng.random() < 0.4 else str(v)
+
+
+def reg_specs(rng, st, upper=False):
+    """One assignment per register: pairs or 8-bit halves, in random order."""
+    specs = []
+    for name, pfx in (('bc', ''), ('de', ''), ('hl', ''), ('bc2', '^'), ('de2', '^'), ('hl2', '^')):
+        base = name[:2]
+        v = st[name]
+        if rng.random() < 0.5:
+            specs.append('%s%s=%s' % (pfx, base, num(rng, v)))
+        else:
+            specs.append('%s%s=%s' % (pfx, base[0], num(rng, v >> 8)))
+            specs.append('%s%s=%s' % (pfx, base[1], num(rng, v & 255)))
+    for name in ('ix', 'iy', 'sp', 'pc', 'i', 'r', 'a', 'f'):
+        specs.append('%s=%s' % (name, num(rng, st[name])))
+    specs.append('^a=%s' % num(rng, st['a2']))
+    specs.append('^f=%s' % num(rng, st['f2']))
+    specs.append('memptr=%s' % num(rng, st['memptr']))
+    rng.shuffle(specs)
+    if upper:
+        specs = [s.split('=')[0].upper() + '=' + s.split('=')[1] for s in specs]
+    return specs
+
+
+def state_specs(rng, st, machine, skip=()):
+    specs = ['iff=%d' % st['iff'], 'im=%d' % st['im'], 'border=%d' % st['border'], 'issue2=%d' % st['issue2'],
+             'tstates=%d' % st['t'], 'fe=%d' % st['fe']]
+    if machine != '48K':
+        specs += ['7ffd=%d' % st['o7ffd'], 'fffd=%d' % st['offfd']]
+        specs += ['ay[%d]=%d' % (n, v) for n, v in enumerate(st['ay'])]
+    specs = [s for s in specs if s.split('=')[0] not in skip]
+    rng.shuffle(specs)
+    return specs
+
+
+class _Stub:
+    pass
+
+
+def stub_simulator(st, banks, machine):
+    """An object with the attributes simutils.get_state() reads from a simulator."""
+    from skoolkit import simutils as su
+    from skoolkit.pagingtracer import Memory
+    sim = _Stub()
+    r = [0] * 30
+    r[su.A], r[su.F] = st['a'], st['f']
+    r[su.B], r[su.C] = st['bc'] >> 8, st['bc'] & 255
+    r[su.D], r[su.E] = st['de'] >> 8, st['de'] & 255
+    r[su.H], r[su.L] = st['hl'] >> 8, st['hl'] & 255
+    r[su.IXh], r[su.IXl] = st['ix'] >> 8, st['ix'] & 255
+    r[su.IYh], r[su.IYl] = st['iy'] >> 8, st['iy'] & 255
+    r[su.SP], r[su.I], r[su.R] = st['sp'], st['i'], st['r']
+    r[su.xA], r[su.xF] = st['a2'], st['f2']
+    r[su.xB], r[su.xC] = st['bc2'] >> 8, st['bc2'] & 255
+    r[su.xD], r[su.xE] = st['de2'] >> 8, st['de2'] & 255
+    r[su.xH], r[su.xL] = st['hl2'] >> 8, st['hl2'] & 255
+    r[su.PC], r[su.MEMPTR], r[su.T] = st['pc'], st['memptr'], st['t']
+    r[su.IFF], r[su.IM] = st['iff'], st['im']
+    sim.registers = r
+    tr = _Stub()
+    tr.border = st['border']
+    tr.outfe = st['fe']
+    tr.ay = list(st['ay'])
+    tr.outfffd = st['offfd']
+    sim.tracer = tr
+    if machine == '48K':
+        sim.memory = [0] * 16384 + list(banks[5]) + list(banks[2]) + list(banks[0])
+    else:
+        sim.memory = Memory([list(banks[b]) for b in range(8)], st['o7ffd'], machine)
+    return sim
+
+
+def write_route(rng, route, path, st, banks, machine, wd, tag):
+    """Write `st` + `banks` to `path` through one of skoolkit's writers. -> error string"""
+    snapshot = _sk()
+    if route == 'ws':
+        try:
+            snapshot.write_snapshot(path, ram_arg(banks), reg_specs(rng, st, rng.random() < 0.3), state_specs(rng, st, machine), machine)
+        except Exception as e:
+            return '%s:%s' % (type(e).__name__, str(e)[:200])
+        return ''
+    if route == 'gs':
+        from skoolkit import simutils
+        try:
+            snapshot.write_snapshot(path, *simutils.get_state(stub_simulator(st, banks, machine)))
+        except Exception as e:
+            return '%s:%s' % (type(e).__name__, str(e)[:200])
+        return ''
+    if route == 'b2s':
+        from skoolkit import bin2sna
+        args = []
+        regs = reg_specs(rng, st)
+        skip = set()
+        if rng.random() < 0.5:
+            regs = [r for r in regs if not r.startswith('sp=')]
+            args += ['-p', optnum(rng, st['sp'])]
+        if rng.random() < 0.5:
+            regs = [r for r in regs if not r.startswith('pc=')]
+            args += ['-s', optnum(rng, st['pc'])]
+        if rng.random() < 0.5:
+            skip.add('border')
+            args += ['-b', str(st['border'])]
+        binf = os.path.join(wd, tag + '.bin')
+        if machine == '48K':
+            ram = banks[5] + banks[2] + banks[0]
+            cut = rng.choice((0, 0, 1, 16384, 40000))
+            # a shorter file with an explicit or implicit origin: the part below the origin must be zero
+            if cut:
+                ram = bytes(cut) + ram[cut:]
+                banks[5], banks[2], banks[0] = ram[:BANK], ram[BANK:2 * BANK], ram[2 * BANK:]
+                data = ram[cut:]
+                if rng.random() < 0.5:
+                    args += ['-o', optnum(rng, 16384 + cut)]
+            else:
+                data = ram
+            with open(binf, 'wb') as f:
+                f.write(data)
+        elif rng.random() < 0.5:
+            with open(binf, 'wb') as f:
+                f.write(b''.join(banks[b] for b in range(8)))
+            if rng.random() < 0.5:
+                # --page alone also sets 7ffd; the explicit --state 7ffd given later wins
+                args += ['--page', str(rng.randrange(8))]
+        else:
+            page = rng.choice((0, 1, 3, 4, 6, 7, 5, 2))
+            if page in (5, 2):
+                banks[page] = banks[page]
+                main = banks[5] + banks[2] + banks[page]
+            else:
+                main = banks[5] + banks[2] + banks[page]
+            with open(binf, 'wb') as f:
+                f.write(main)
+            args += ['--page', str(page)]
+            for b in range(8):
+                if b not in (5, 2, page):
+                    if rng.random() < 0.8:
+                        bf = os.path.join(wd, '%s-b%d.bin' % (tag, b))
+                        data = banks[b]
+                        if rng.random() < 0.3:
+                            # a short bank file is padded with zeros
+                            n = rng.randrange(1, BANK)
+                            data = data[:n]
+                            banks[b] = data + bytes(BANK - n)
+                        with open(bf, 'wb') as f:
+                            f.write(data)
+                        args += ['--bank', '%d,%s' % (b, bf)]
+                    else:
+                        banks[b] = bytes(BANK)
+            if page in (5, 2):
+                # the main file's third 16K is the same bank as its first/second: the last copy wins
+                pass
+        for r in regs:
+            args += ['-r', r]
+        for s in state_specs(rng, st, machine, skip):
+            args += ['-S', s]
+        rng_args = args + [binf, path]
+        return quiet_main(bin2sna, rng_args)
+    raise MachineryError('unknown route ' + route)
+
+
+def want_record(st):
+    return {k: st[k] for k in ('a', 'f', 'bc', 'de', 'hl', 'a2', 'f2', 'bc2', 'de2', 'hl2', 'ix', 'iy', 'sp', 'pc', 'i', 'r',
+                               'iff', 'im', 'border', 'issue2', 't', 'o7ffd', 'offfd', 'ay', 'fe', 'memptr')}
+
+
+def file_case_worker(job):
+    wd, n, sd, route, machine, tclass = job
+    rng = random.Random(sd)
+    st = gen_state(rng, machine, tclass)
+    banks = gen_banks(rng, machine)
+    dontcare, crossdc, ver = [], [], 3
+    if route == 'gs':
+        st['issue2'] = 0                      # not named by get_state: documented default
+    if route == 'b2s' and machine == '+2':
+        machine = '128K'
+    files = []
+    if route in ('ws', 'gs', 'b2s'):
+        bsrc = None
+        for fmt in ('z80', 'szx'):
+            path = os.path.join(wd, 'f%d.%s' % (n, fmt))
+            b = dict(banks)
+            err = write_route(random.Random(sd + 1), route, path, st, b, machine, wd, 'f%d%s' % (n, fmt))
+            if err:
+                files.append(dict(fmt=fmt, rerr='write:' + err, ierr='', real=NOFIELDS, ind=NOFIELDS, banks=[], rextra=[], iextra=[],
+                                  **raw_record(path, None)))
+                continue
+            rec, _ = observe(path, b)
+            files.append(rec)
+    elif route.startswith('mod'):
+        # an independently written file (v1/v2/v3, compressed or not; szx) passed through snapmod unchanged
+        from skoolkit import snapmod
+        kind = route[4:]
+        if kind.startswith('v1') and st['pc'] == 0:
+            st['pc'] = 0x8000             # a version 1 file cannot say PC=0 (that marks version 2/3)
+        s = dict(st)
+        s.update(iff1=st['iff'], iff2=st['iff'], tstates=st['t'] % FRAMES[machine], machine=machine, banks=banks)
+        fmt = 'szx' if kind.startswith('szx') else 'z80'
+        src = os.path.join(wd, 'f%d-in.%s' % (n, fmt))
+        path = os.path.join(wd, 'f%d.%s' % (n, fmt))
+        if fmt == 'szx':
+            data = snapfile.write_szx(s, compress=kind == 'szx')
+        else:
+            ver = int(kind[1])
+            data = snapfile.write_z80(s, ver, compress=not kind.endswith('raw'), hdr_len=55 if kind.endswith('x') else None)
+            dontcare += ['fe', 'memptr']
+        with open(src, 'wb') as f:
+            f.write(data)
+        err = quiet_main(snapmod, [src, path])
+        if err:
+            files.append(dict(fmt=fmt, rerr='snapmod:' + err, ierr='', real=NOFIELDS, ind=NOFIELDS, banks=[], rextra=[], iextra=[],
+                              **raw_record(path, None)))
+        else:
+            rec, _ = observe(path, banks)
+            files.append(rec)
+    tkey = 't-ge-2^24' if st['t'] >= T24 else ('t-ge-frame' if st['t'] >= FRAMES[machine] else 't-in-frame')
+    return dict(key='%s:%s:%s' % (route, machine, tkey), route=route, machine=machine, want=want_record(st), dontcare=dontcare,
+                crossdontcare=crossdc, ver=ver, files=files, seed=sd, n=n)
+
+
+def defaults_case(wd, n, route, machine):
+    """Nothing named: the documented defaults must be written (iff=1, im=1, tstates=34943, border, issue2=0)."""
+    snapshot = _sk()
+    from skoolkit import bin2sna
+    rng = random.Random(n)
+    banks = gen_banks(rng, machine)
+    st = gen_state(rng, machine)
+    st.update(iff=1, im=1, t=34943, issue2=0, fe=0, memptr=0, o7ffd=0, offfd=0, ay=[0] * 16, border=0)
+    dontcare = ['a', 'f', 'bc', 'de', 'hl', 'a2', 'f2', 'bc2', 'de2', 'hl2', 'ix', 'iy', 'i', 'r']
+    files = []
+    for fmt in ('z80', 'szx'):
+        path = os.path.join(wd, 'd%d.%s' % (n, fmt))
+        if route == 'ws':
+            dc = dontcare + ['sp', 'pc']
+            snapshot.write_snapshot(path, ram_arg(banks), [], [], machine)
+        else:
+            # bin2sna: border default 7, stack and start default to the origin
+            dc = dontcare
+            binf = os.path.join(wd, 'd%d.bin' % n)
+            if machine == '48K':
+                ram = bytes(1000) + (banks[5] + banks[2] + banks[0])[1000:]
+                banks[5], banks[2], banks[0] = ram[:BANK], ram[BANK:2 * BANK], ram[2 * BANK:]
+                with open(binf, 'wb') as f:
+                    f.write(ram[1000:])
+                st.update(border=7, sp=17384, pc=17384)
+            else:
+                with open(binf, 'wb') as f:
+                    f.write(b''.join(banks[b] for b in range(8)))
+                st.update(border=7, sp=0, pc=0)
+            err = quiet_main(bin2sna, [binf, path])
+            if err:
+                raise MachineryError('bin2sna defaults: ' + err)
+        rec, _ = observe(path, banks)
+        files.append(rec)
+    return dict(key='%s:%s:defaults' % (route, machine), route=route, machine=machine, want=want_record(st), dontcare=dc,
+                crossdontcare=['i', 'iy'], ver=3, files=files, seed=n, n=n)
+
+
+def file_jobs(wd, sd, per_combo, nbig):
+    jobs = []
+    n = 0
+    for route in ('ws', 'gs', 'b2s'):
+        for machine in ('48K', '128K', '+2'):
+            if route == 'b2s' and machine == '+2':
+                continue
+            for k in range(per_combo):
+                jobs.append((wd, n, sd * 1000003 + n, route, machine, 'frame'))
+                n += 1
+            for k in range(nbig):
+                jobs.append((wd, n, sd * 1000003 + n, route, machine, 'big'))
+                n += 1
+    for route in ('mod:v1', 'mod:v1raw', 'mod:v2', 'mod:v2raw', 'mod:v3', 'mod:v3raw', 'mod:v3x', 'mod:szx', 'mod:szxraw'):
+        for machine in ('48K', '128K', '+2'):
+            if route.startswith('mod:v1') and machine != '48K':
+                continue
+            for k in range(max(1, per_combo // 4)):
+                jobs.append((wd, n, sd * 1000003 + n, route, machine, 'frame'))
+                n += 1
+    return jobs
+
+
+# ------------------------------------------------------------------------------------------------
+# bin2sna / snapmod option traces (SnapOpsTrace.tla)
+# ------------------------------------------------------------------------------------------------
+def base_cell(c):
+    return ((c * 7) + ((c // 256) * 13) + ((c // BANK) * 101) + 3) % 256       # SnapOps!Base
+
+
+def base_bank(bank):
+    return bytes(base_cell(bank * BANK + off) for off in range(BANK))
+
+
+_BASE = {}
+
+
+def base_banks(machine):
+    order = (5, 2, 0) if machine == '48K' else range(8)
+    for b in order:
+        if b not in _BASE:
+            _BASE[b] = base_bank(b)
+    return {b: _BASE[b] for b in order}
+
+
+MODEL_REGS = ('a', 'f', 'b', 'c', 'bc', 'd', 'e', 'de', 'h', 'l', 'hl', 'a2', 'f2', 'b2', 'c2', 'bc2', 'd2', 'e2', 'de2',
+              'h2', 'l2', 'hl2', 'ix', 'iy', 'sp', 'pc', 'i', 'r', 'memptr')
+MODEL_REG16 = ('bc', 'de', 'hl', 'bc2', 'de2', 'hl2', 'ix', 'iy', 'sp', 'pc', 'memptr')
+EDGES = (0x3FF0, 0x4000, 0x7FF0, 0x8000, 0xBFF0, 0xC000, 0xFFD0)
+
+
+def op(k, **kw):
+    o = dict(k=k, name='', idx=0, v=0, page=-1, a=0, b=0, step=1, op='set', n=0, dpage=-1, dst=0, data=[])
+    o.update(kw)
+    return o
+
+
+def opt_reg_name(name):
+    return '^' + name[:-1] if name.endswith('2') else name
+
+
+def gen_reg_op(rng, avoid_pc0=False):
+    name = rng.choice(MODEL_REGS)
+    v = pick16(rng) if name in MODEL_REG16 else pick8(rng)
+    if name == 'pc' and avoid_pc0 and v == 0:
+        v = 0x1234
+    return op('reg', name=name, v=v)
+
+
+def gen_state_op(rng, machine):
+    names = ['iff', 'im', 'border', 'issue2', 'tstates', 'fe']
+    if machine != '48K':
+        names += ['7ffd', '7ffd', 'fffd', 'ay', 'ay']
+    name = rng.choice(names)
+    if name == 'iff' or name == 'issue2':
+        v = rng.randrange(2)
+    elif name == 'im':
+        v = rng.randrange(3)
+    elif name == 'border':
+        v = rng.randrange(8)
+    elif name == 'tstates':
+        v = rng.choice(t_values(machine) + [rng.randrange(FRAMES[machine])] * 8)
+    elif name == '7ffd':
+        v = rng.choice((0, 1, 2, 3, 4, 5, 6, 7, 0x10, 0x15, 0x2F, 0xFF, rng.randrange(256)))
+    else:
+        v = pick8(rng)
+    return op('state', name=name, idx=rng.randrange(16) if name == 'ay' else 0, v=v)
+
+
+def gen_addr(rng, span):
+    """An address such that [addr, addr+span) lies in 0..65535, biased to the 16K boundaries."""
+    if rng.random() < 0.6:
+        e = rng.choice(EDGES)
+        a = e + rng.randrange(-span, 17) if e in (0x4000, 0x8000, 0xC000) else e + rng.randrange(0, 16)
+    else:
+        a = rng.randrange(0x3F00, 0x10000)
+    return max(0, min(a, 0x10000 - max(span, 1)))
+
+
+def gen_poke_op(rng, machine):
+    page = rng.randrange(8) if machine != '48K' and rng.random() < 0.45 else -1
+    form = rng.randrange(3)
+    step = 1
+    cnt = 1
+    if form >= 1:
+        cnt = rng.choice((1, 2, 3, 5, 17, 40))
+    if form == 2:
+        step = rng.choice((1, 2, 3, 7, 255, 256, 0x4000, 0x8000))
+    span = (cnt - 1) * step + 1
+    if span > 0xC000:
+        cnt = 2
+        span = step + 1
+    a = gen_addr(rng, span)
+    if page >= 0 and rng.random() < 0.5:
+        a %= BANK                                   # bank offsets instead of addresses
+    b = a + (cnt - 1) * step + (rng.randrange(step) if step > 1 and a + (cnt - 1) * step + step - 1 <= 0xFFFF else 0)
+    if form == 0:
+        b, step = a, 1
+    o = op('poke', page=page, a=a, b=b, step=step, op=rng.choice(('set', 'set', 'xor', 'add')), v=pick8(rng))
+    o['form'] = form
+    return o
+
+
+def gen_move_op(rng, machine):
+    n = rng.choice((0, 1, 2, 7, 16, 33, 48))
+    if machine != '48K' and rng.random() < 0.45:
+        sp = rng.randrange(8)
+        dp = rng.choice((sp, rng.randrange(8), rng.randrange(8)))
+        src = rng.choice((0, BANK - n, rng.randrange(0, BANK - n + 1)))
+        dst = rng.choice((0, BANK - n, rng.randrange(0, BANK - n + 1), max(0, min(src + rng.randrange(-8, 9), BANK - n))))
+        if rng.random() < 0.5:
+            src += 0xC000
+        if rng.random() < 0.5:
+            dst += 0xC000
+        return op('move', page=sp, a=src, n=n, dpage=dp, dst=dst)
+    src = max(0x4000, gen_addr(rng, n))
+    if rng.random() < 0.35:
+        dst = max(0, min(src + rng.randrange(-n - 2, n + 3), 0x10000 - n))        # overlapping
+    else:
+        dst = gen_addr(rng, n)
+    return op('move', a=src, n=n, dst=dst)
+
+
+def gen_patch_op(rng, machine):
+    data = [pick8(rng) for _ in range(rng.choice((1, 2, 5, 16, 40)))]
+    if machine != '48K' and rng.random() < 0.45:
+        page = rng.randrange(8)
+        a = rng.choice((0, BANK - len(data), BANK - len(data) + rng.randrange(1, len(data) + 1) - 1, BANK - 1, rng.randrange(BANK)))
+        if rng.random() < 0.5:
+            a += 0xC000
+        return op('patch', page=page, a=a, data=data)
+    return op('patch', a=gen_addr(rng, len(data)), data=data)
+
+
+def op_args(rng, o, tool, wd, tag):
+    """Render one model option as command-line arguments of bin2sna ('b') or snapmod ('m')."""
+    k = o['k']
+    if k == 'reg':
+        return ['-r', '%s=%s' % (opt_reg_name(o['name']), num(rng, o['v']))]
+    if k == 'state':
+        name = 'ay[%d]' % o['idx'] if o['name'] == 'ay' else o['name']
+        return ['-S' if tool == 'b' else '-s', '%s=%d' % (name, o['v'])]
+    pfx = '%d:' % o['page'] if o['page'] >= 0 else ''
+    if k == 'poke':
+        form = o.get('form', 2)
+        if form == 0:
+            rng_s = num(rng, o['a'])
+        elif form == 1:
+            rng_s = '%s-%s' % (num(rng, o['a']), num(rng, o['b']))
+        else:
+            rng_s = '%s-%s-%s' % (num(rng, o['a']), num(rng, o['b']), num(rng, o['step']))
+        val = {'set': '', 'xor': '^', 'add': '+'}[o['op']] + num(rng, o['v'])
+        return ['-P' if tool == 'b' else '-p', '%s%s,%s' % (pfx, rng_s, val)]
+    if k == 'move':
+        dp = ''
+        if o['page'] >= 0 and (o['dpage'] != o['page'] or rng.random() < 0.5):
+            dp = '%d:' % o['dpage']
+        return ['-m', '%s%s,%s,%s%s' % (pfx, num(rng, o['a']), num(rng, o['n']), dp, num(rng, o['dst']))]
+    if k == 'patch':
+        pf = os.path.join(wd, tag + '.patch')
+        with open(pf, 'wb') as f:
+            f.write(bytes(o['data']))
+        return ['--patch', '%s%s,%s' % (pfx, num(rng, o['a']), pf)]
+    raise MachineryError('unknown op ' + k)
+
+
+MAXDIFF = 1500
+
+
+def bank_diff(prev, cur):
+    """-> sorted [[cell, new value]...] over all banks present, toomany flag"""
+    out = []
+    for b in sorted(set(prev) | set(cur)):
+        p, c = prev.get(b), cur.get(b)
+        if p == c:
+            continue
+        if p is None or c is None or len(p) != len(c):
+            return [], 1
+        for off in range(BANK):
+            if p[off] != c[off]:
+                out.append([b * BANK + off, c[off]])
+                if len(out) > MAXDIFF:
+                    return out[:MAXDIFF], 1
+    return out, 0
+
+
+def obs_of(path, prev_banks, err):
+    if err:
+        return dict(err=err, ind=NOFIELDS, real=NOFIELDS, diff=[], toomany=0, same=0), prev_banks
+    rf, rb, rerr = read_real(path)
+    jf, jb, raw, jerr = read_ind(path)
+    if rerr or jerr:
+        return dict(err='read:' + (jerr or rerr), ind=NOFIELDS, real=NOFIELDS, diff=[], toomany=0, same=0), prev_banks
+    diff, toomany = bank_diff(prev_banks, jb)
+    for rec in (rf, jf):
+        rec['a2'], rec['f2'] = rec['a2'], rec['f2']
+    return dict(err='', ind=jf, real=rf, diff=diff, toomany=toomany, same=int(rb == jb)), jb
+
+
+def all_named_ops(rng, machine, fmt, ver):
+    """Options naming every register and attribute (used for the step that creates the snapshot)."""
+    st = gen_state(rng, machine)
+    if ver == 1 and st['pc'] == 0:
+        st['pc'] = 0x6000
+    if st['t'] >= T24:
+        st['t'] %= FRAMES[machine]
+    ops = [op('reg', name=n, v=st[n]) for n in ('a', 'f', 'bc', 'de', 'hl', 'a2', 'f2', 'bc2', 'de2', 'hl2', 'ix', 'iy', 'sp', 'pc',
+                                                'i', 'r', 'memptr')]
+    rng.shuffle(ops)
+    sops = [op('state', name='iff', v=st['iff']), op('state', name='im', v=st['im']), op('state', name='border', v=st['border']),
+            op('state', name='issue2', v=st['issue2']), op('state', name='tstates', v=st['t']), op('state', name='fe', v=st['fe'])]
+    if machine != '48K':
+        sops += [op('state', name='fffd', v=st['offfd'])] + [op('state', name='ay', idx=n, v=v) for n, v in enumerate(st['ay'])]
+    rng.shuffle(sops)
+    return ops, sops, st
+
+
+def trace_worker(job):
+    wd, n, sd, nsteps = job
+    rng = random.Random(sd)
+    snapshot = _sk()
+    from skoolkit import bin2sna, snapmod
+    machine = rng.choice(('48K', '128K', '128K', '+2'))
+    create = rng.choice(('b2s', 'b2s', 'ws', 'v1', 'v2', 'ind3', 'indszx'))
+    if create == 'v1':
+        machine = '48K'
+    if create == 'b2s' and machine == '+2':
+        machine = '128K'
+    fmt = 'szx' if create == 'indszx' else ('z80' if create in ('v1', 'v2', 'ind3') else rng.choice(('z80', 'szx')))
+    ver = {'v1': 1, 'v2': 2}.get(create, 3)
+    banks = base_banks(machine)
+    path = os.path.join(wd, 't%d.%s' % (n, fmt))
+    steps = []
+    regops, stateops, st = all_named_ops(rng, machine, fmt, ver)
+    p7 = rng.randrange(8) if machine != '48K' else 0
+    if create == 'b2s':
+        binf = os.path.join(wd, 't%d.bin' % n)
+        pokes = []
+        args = []
+        if machine == '48K':
+            with open(binf, 'wb') as f:
+                f.write(banks[5] + banks[2] + banks[0])
+            first = []
+        else:
+            with open(binf, 'wb') as f:
+                f.write(b''.join(banks[b] for b in range(8)))
+            args += ['--page', str(p7)]
+            first = [op('state', name='7ffd', v=p7)]
+        for _ in range(rng.randrange(0, 4)):
+            pokes.append(gen_poke_op(rng, machine))
+        ops = first + pokes + regops + stateops
+        for o in pokes + regops + stateops:
+            args += op_args(rng, o, 'b', wd, 't%d' % n)
+        err = quiet_main(bin2sna, args + [binf, path])
+    elif create == 'ws':
+        o7 = [op('state', name='7ffd', v=rng.randrange(256))] if machine != '48K' else []
+        ops = regops + stateops + o7
+        regs = [op_args(rng, o, 'b', wd, '')[1] for o in regops]
+        state = [op_args(rng, o, 'b', wd, '')[1] for o in stateops + o7]
+        try:
+            snapshot.write_snapshot(path, ram_arg(banks), regs, state, machine)
+            err = ''
+        except Exception as e:
+            err = '%s:%s' % (type(e).__name__, e)
+    else:
+        # an independently written blank file (registers 0, documented default attributes), then snapmod names everything
+        s0 = dict(a=0, f=0, bc=0, de=0, hl=0, a2=0, f2=0, bc2=0, de2=0, hl2=0, ix=0, iy=0, sp=0, pc=1 if ver == 1 else 0, i=0, r=0,
+                  iff1=1, iff2=1, im=1, border=0, issue2=0, tstates=34943, machine=machine, o7ffd=0, offfd=0, ay=[0] * 16, fe=0,
+                  memptr=0, banks=banks)
+        with open(path, 'wb') as f:
+            f.write(snapfile.write_szx(s0) if fmt == 'szx' else snapfile.write_z80(s0, ver, compress=rng.random() < 0.7))
+        o7 = [op('state', name='7ffd', v=rng.randrange(256))] if machine != '48K' else []
+        ops = regops + stateops + o7
+        args = []
+        for o in ops:
+            args += op_args(rng, o, 'm', wd, 't%d' % n)
+        err = quiet_main(snapmod, args + [path])
+    obs, cur = obs_of(path, banks, err)
+    steps.append(dict(ops=ops, obs=obs, tool='bin2sna' if create == 'b2s' else create))
+    k = 0
+    while k < nsteps and not obs['err']:
+        k += 1
+        r = rng.random()
+        cnt = 1 if r < 0.75 else rng.randrange(2, 5)
+        cls = rng.choice(('reg', 'state', 'mem', 'mem', 'mem'))
+        ops = []
+        for _ in range(cnt):
+            if cls == 'reg':
+                ops.append(gen_reg_op(rng, ver == 1))
+            elif cls == 'state':
+                ops.append(gen_state_op(rng, machine))
+            else:
+                kind = rng.choice(('poke', 'poke', 'move', 'patch'))
+                ops.append({'poke': gen_poke_op, 'move': gen_move_op, 'patch': gen_patch_op}[kind](rng, machine))
+        if cls == 'mem' and cnt > 1:
+            # snapmod applies patches, then moves, then pokes (options of one kind in command-line order)
+            ops.sort(key=lambda o: ('patch', 'move', 'poke').index(o['k']))
+        args = []
+        for j, o in enumerate(ops):
+            args += op_args(rng, o, 'm', wd, 't%d-%d-%d' % (n, k, j))
+        out = path
+        if rng.random() < 0.3:
+            out = os.path.join(wd, 't%d-%d.%s' % (n, k, fmt))
+            args += [path, out]
+        else:
+            args += [path]
+        err = quiet_main(snapmod, args)
+        obs, cur = obs_of(out, cur, err)
+        steps.append(dict(ops=ops, obs=obs, tool='snapmod', args=[a for a in args if not a.startswith(wd)]))
+        path = out
+    return dict(fmt=fmt, ver=ver, machine=machine, create=create, steps=steps, seed=sd, n=n, nsteps=nsteps)
